@@ -87,8 +87,14 @@ def do_step(step, root):
     conv = neuropixel.NP2Converter(ap, post_check=step["post_check"], delete_original=step["delete_original"],
                                    compress=step["compress"])
     conv.init_params(nwindow=step["nwindow"])
+    pre = None
+    if step.get("pre_noop_call"):
+        # the same converter object is first asked for a plain (non-forced) run over existing output
+        s0 = snapshot(root)
+        st0 = conv.process(overwrite=False)
+        pre = {"status": int(st0), "changed": [d[0] for d in snap_diff(s0, snapshot(root))][:6]}
     status = conv.process(overwrite=step["overwrite"])
-    return {"status": int(status)}
+    return {"status": int(status), "pre": pre}
 
 
 def eligible(label):
@@ -128,6 +134,11 @@ def _gen_step(r, nfaults, first):
           "post_check": r.random() < 0.7, "compress": r.random() < 0.6, "delete_original": r.random() < 0.35}
     want = nfaults < 2 and r.random() < 0.6
     st["fault"] = {"auto": True, "rseed": r.randrange(1 << 30)} if want else None
+    if not first and r.random() < 0.15:
+        # two calls on ONE converter object: a plain run (expected to do nothing over complete output), then this step's call
+        st["pre_noop_call"] = True
+        st["overwrite"] = True
+        st["fault"] = None
     if nfaults < 2 and r.random() < 0.12:
         # verification-targeted: a completed AP write is silently corrupted while the options ask
         # for verify-then-delete; a real verification must refuse to delete
@@ -342,6 +353,8 @@ def _exec_step(W, st, model, log, stats, bump, seed):
     st["ap_file"] = os.path.relpath(orig, W.root)
     st["nwindow"] = W.w["nwindow"]
     pool_seed = seed % 1000
+    if st.get("pre_noop_call") and (st.get("fault") or not (model["completed"] and not model["dirty"])):
+        st["pre_noop_call"] = False      # only meaningful over complete earlier output, and fault-free
     fault = st.get("fault")
     if fault and fault.get("auto"):
         dr = session.dry_run(W.root, do_step, st, W.cfg, pool_seed, pre=instrument)
@@ -419,6 +432,11 @@ def _exec_step(W, st, model, log, stats, bump, seed):
             raise Violation("C04.S2", f"{sig0}:removed", f"original of kind {kind} was removed | " + ctx)
 
     # ---- statuses / idempotence
+    pre = out["ok"].get("pre") if out and "ok" in out else None
+    if pre is not None:
+        bump("probes", "two_calls_on_one_converter_object")
+        if pre["status"] != 0 or pre["changed"]:
+            raise Violation("C04.S3", f"{sig0}:same-object-noop", f"plain run over complete output on the same converter object returned {pre['status']} and changed {pre['changed']} | " + ctx)
     changed = snap_diff(before, after)
     if status in (0, -1) and changed:
         what = "prior-complete" if model["completed"] and not model["dirty"] else ("fresh" if fresh else "debris")
